@@ -659,6 +659,29 @@ def encoder_images(ctx):
             up["ecblend"] = [{"mode": 1, "alpha": 0, "source": 1}] * nec
             frames = [base, up]
         plans.append(("upsampled", pl.plan_line(img, frames)))
+    # noise and splines (3 colour channels; noise is seeded per group position, a spline is drawn over the
+    # whole frame): one or several groups, alone or as the upper layer of a blend
+    for i in range(8 if ctx.quick else 100):
+        multi = i % 4 == 3
+        w, h = (rng.choice([(140, 30), (30, 135), (130, 129)]) if multi else (rng.randint(8, 60), rng.randint(8, 40)))
+        bits = 8
+        img = {"w": w, "h": h, "bits": bits, "gray": False, "buf16": rng.random() < 0.6, "orient": rng.choice([1, 1, 2, 6]),
+               "anim": None, "ecs": []}
+        lut, sp = pl.gen_features(rng, w, h, noise=rng.random() < 0.7, splines=rng.random() < 0.6)
+        top = {"gshift": 0 if multi else 1, "is_last": True, "tr": [], "pals": [], "tree": ("L", 0, 5, 0, 1), "wp": None,
+               "chans": [(w, h, pl.gen_pixels(rng, w, h, 0, 255)) for _ in range(3)],
+               "gab": rng.random() < 0.3, "epf": rng.choice([0, 0, 1])}
+        if lut:
+            top["noise"] = lut
+        if sp:
+            top["splines"] = sp
+        frames = [top]
+        if rng.random() < 0.4:
+            base = {"gshift": 1, "is_last": False, "save_ref": 2, "blend": {"mode": 0}, "tr": [], "pals": [], "tree": ("L", 0, 0, 0, 1),
+                    "wp": None, "chans": [(w, h, pl.gen_pixels(rng, w, h, 0, 255)) for _ in range(3)]}
+            top["blend"] = {"mode": 1, "source": 2}
+            frames = [base, top]
+        plans.append(("noise/splines", pl.plan_line(img, frames)))
     out = []
     for k, (kind, line, cs) in enumerate(fl.encode(plans)):
         ctx.count("encoder-images:" + kind)
